@@ -152,22 +152,6 @@ theorem lexer_spec (cfg : Cfg) (t : Text) : ∀ fuel : Nat,
       · rename_i hc
         simp only [Bool.and_eq_true, Bool.not_eq_true', decide_eq_true_eq] at hc
         obtain ⟨hnd, hlt⟩ := hc
-        have hcont : ∀ (i2 : Nat) (q2 : Node) (m2 : PState) (qa : Nat), i < i2 → i2 ≤ t.length + 1 →
-            qa + 2 ≤ 8 * (i2 - i) →
-            SatW 1 (fun i' v' q => RLL t.length i i' v' (q + qa)) (fun q => RLLE t.length i (q + qa))
-              (if i < skip cfg t i2 true then
-                (readListLoop cfg t fuel d (skip cfg t i2 true) (q2 :: acc) m2).addSteps (skip cfg t i2 true - i2 + 1)
-              else Res.spin 1) := by
-          intro i2 q2 m2 qa h1 h2 h3
-          have hs := skip_bounds cfg t i2 true
-          generalize skip cfg t i2 true = i3 at hs ⊢
-          rw [if_pos (by omega)]
-          refine satW_addSteps (i3 - i2 + 1) (by omega) ?_
-          refine satW_mono (ihLL d i3 (q2 :: acc) m2 (by omega) (by arith)) ?_ ?_
-          · intro i' v q h
-            arith
-          · intro q h
-            arith
         refine satW_bind (ihK i true true m (by omega) (by arith)) ?_ ?_
         · intro q h
           arith
@@ -176,17 +160,15 @@ theorem lexer_spec (cfg : Cfg) (t : Text) : ∀ fuel : Nat,
           · simp only [KG, hv] at h
             dsimp only
             simp only [Bool.false_eq_true, if_false]
-            split
-            · refine satW_bind (ihL ']' i1 m1 (by arith) (by arith)) ?_ ?_
-              · intro q h'
-                arith
-              · intro i2 l m2 q2 h2
-                refine satW_mono (hcont i2 (.pylist l) m2 (q2 + q1) (by arith) (by arith) (by arith)) ?_ ?_
-                · intro i' v q h'
-                  arith
-                · intro q h'
-                  arith
-            · exact hcont i1 q m1 q1 (by arith) (by arith) (by arith)
+            have hs := skip_bounds cfg t i1 true
+            generalize skip cfg t i1 true = i3 at hs ⊢
+            rw [if_pos (by arith)]
+            refine satW_addSteps (i3 - i1 + 1) (by omega) ?_
+            refine satW_mono (ihLL d i3 (q :: acc) m1 (by arith) (by arith)) ?_ ?_
+            · intro i' v q' h'
+              arith
+            · intro q' h'
+              arith
           · simp only [KG, hv] at h
             simp only [if_true]
             refine satW_ok 1 (by omega) ?_
